@@ -136,6 +136,17 @@ def main(argv):
             c.broken.append("model driver died: " + err[-300:])
             mout = None
     tee_model = mout[len(mlines):] if mout else []
+    mcnt = None
+    if drv is not None:
+        ids = [i for i, (docs, inp, k) in enumerate(runs) if k == "id" and docs is not None]
+        fl = [(i, d) for i in ids for d in runs[i][0]]
+        rc, fo, err = run_lines(drv, ["F " + hx(d) for _, d in fl])
+        if len(fo) == len(fl):
+            mcnt = {}
+            for (i, d), o in zip(fl, fo):
+                t = o.split()
+                mcnt.setdefault(i, []).append(int(t[2]) if t[0] == "OK" else -1)
+            c.cov["traces_validated_against_impl"] += len(fl)
     tee_i = 0
     ndis = 0
     scratch = tempfile.mkdtemp(prefix="c08-", dir=os.environ.get("VERIF_BUILD", "/var/tmp"))
@@ -147,7 +158,27 @@ def main(argv):
                 logf = os.path.join(scratch, "tee.log")
                 open(logf, "wb").close()
                 argv.append(logf)
-            st, so, se = run_limited(argv, stdin=inp, timeout=30)
+            # the feeder/collector trace hooks (PREPROCESS_VERIF, another property's hook commit) report
+            # Document.line_cnt as the feeder computed it ("F lines n") and as the collector uses it ("C need n")
+            tenv = dict(os.environ, PREPROCESS_VERIF_TRACE_FD="2") if k == "id" else None
+            st, so, se = run_limited(argv, stdin=inp, timeout=30, env=tenv)
+            if tenv is not None and docs is not None and st == 0:
+                tl = se.decode("utf-8", "replace").split("\n")
+                fcnt = [int(x.split()[2]) for x in tl if x.startswith("F lines ")]
+                ccnt = [int(x.split()[2]) for x in tl if x.startswith("C need ")]
+                if fcnt or ccnt:          # hooks present in this tree
+                    want_cnt = [len(doc_lines(d)) for d in docs]
+                    c.cov["traces_validated_against_impl"] += 1
+                    if fcnt != want_cnt or ccnt != want_cnt:
+                        j = [x for x in range(len(want_cnt)) if x >= len(fcnt) or x >= len(ccnt) or fcnt[x] != want_cnt[x] or ccnt[x] != want_cnt[x]]
+                        c.violation("line-count-bookkeeping: per-document line counts: feeder %r, collector %r, documents have %r lines (first difference at document %s)" % (fcnt[:12], ccnt[:12], want_cnt[:12], j[:1]),
+                                    {"op": "b64filter", "child": "child_id.py", "stdin": inp.decode("latin1"), "documents": [d.decode("latin1") for d in docs],
+                                     "feeder_line_cnt": fcnt, "collector_need": ccnt, "expected": want_cnt, "how": "PREPROCESS_VERIF_TRACE_FD=2 b64filter child_id.py"})
+                    if mcnt is not None:
+                        mc = mcnt.get(i)
+                        if mc is not None and mc != fcnt:
+                            c.broken.append("correspondence feed_doc model vs feeder trace: model line counts %r, trace %r" % (mc[:12], fcnt[:12]))
+                se = b""
             shape = "malformed" if docs is None else ("has-empty-doc" if b"" in docs else ("has-cr" if any(b"\r" in d for d in docs) else "plain"))
             c.count((k, inp), nontrivial=len(inp) > 1, bucket="%s/%s" % (k, shape))
             rep = {"op": "b64filter", "child": "child_%s.py" % k, "stdin": inp.decode("latin1"), "stdin_hex": hx(inp),
